@@ -68,6 +68,10 @@ def _work(task):
     kind, via, prefix, depth, kw, min_len = task
     out = {"programs": 0, "evals": 0, "classes": {}, "downstream": {}, "error": None, "samples": []}
     try:
+        if kind == "fixed":
+            for prog in prefix:
+                _eval(prog, out)
+            return out
         if kind == "random":
             rng = random.Random(via)
             for _ in range(depth):
@@ -140,6 +144,9 @@ def main(tier="quick", seed=0, procs=None, only=None):
                 if len(prog) == 2:
                     tasks.append(("enum", via, prog, depth - 2, kw, min_len))
     tasks.append(("random", seed, (), EXTRA[tier], FULL, spaces[-1][1]))
+    # Sequentials with more children than one digit can number (positional names '0'..'12'): registration order is not the order of the names
+    long_ = [tuple(k % 3 for k in range(n_)) for n_ in (10, 11, 12, 13)] + [(0, 1, 2, 2, 1, 0, 0, 2, 1, 1, 0, 2)]
+    tasks.append(("fixed", "setattr", tuple((("seq", "pos", 3, ch),) + tail for ch in long_ for tail in ((), (("call", 3, "eval"),), (("set", 3, "5", ("M", 0), "setattr"),))), 1, FULL, 0))
     if only:
         tasks = [t for t in tasks if only in repr(t[2])]
         run.extra["filtered_only"] = only
